@@ -1,6 +1,7 @@
 package main
 
 import (
+	"fmt"
 	"go/ast"
 	"go/token"
 	"go/types"
@@ -586,6 +587,282 @@ func ruleLoopExists(c *Ctx) {
 				c.bad(key, bad.Pos(), "search loop returns the computed value `%s` from inside the loop and `%s` after it: the first candidate that reaches this return decides, later candidates are never examined", types.ExprString(bad.Results[0]), lit.Name)
 			} else {
 				c.ok(key, st.Pos(), "inside the loop only literal verdicts are returned; `%s` after exhausting all candidates", lit.Name)
+			}
+		}
+	})
+}
+
+func init() {
+	register(&Rule{Name: "update.guard", Floor: 1,
+		Doc: "refresh-if-changed blocks: when an if (without else) only assigns X_i = v_i for several i and its condition only compares those same pairs with !=, the condition is the disjunction of the inequalities (any difference refreshes all); a conjunction leaves a stale X_i whenever only one of them changed",
+		Run: ruleUpdateGuard})
+	register(&Rule{Name: "rotate.order", Floor: 2,
+		Doc: "buffer rotations: in a run of consecutive assignments between reference-typed fields of one value (a.F = a.G; a.G = a.H; ...), no field is read after it was written in the same run — that would make two names share one buffer and lose the old content of the other",
+		Run: ruleRotateOrder})
+}
+
+func flattenBool(e ast.Expr, op token.Token) []ast.Expr {
+	e = ast.Unparen(e)
+	if be, ok := e.(*ast.BinaryExpr); ok && be.Op == op {
+		return append(flattenBool(be.X, op), flattenBool(be.Y, op)...)
+	}
+	return []ast.Expr{e}
+}
+
+func ruleUpdateGuard(c *Ctx) {
+	c.P.funcDecls(func(pk *packages.Package, fd *ast.FuncDecl) {
+		if fd.Body == nil {
+			return
+		}
+		fname := pkgShort(pk.Types) + "." + funcName(fd)
+		ast.Inspect(fd.Body, func(n ast.Node) bool {
+			is, ok := n.(*ast.IfStmt)
+			if !ok || is.Else != nil || is.Init != nil || len(is.Body.List) < 2 {
+				return true
+			}
+			// body: only simple assignments X = v
+			pairs := map[string]string{}
+			for _, st := range is.Body.List {
+				as, ok := st.(*ast.AssignStmt)
+				if !ok || as.Tok != token.ASSIGN || len(as.Lhs) != 1 || len(as.Rhs) != 1 {
+					return true
+				}
+				pairs[types.ExprString(as.Lhs[0])] = types.ExprString(as.Rhs[0])
+			}
+			// condition: leaves (under any mix of && / ||) are all `a != b` over exactly the assigned pairs
+			var leaves []ast.Expr
+			var collect func(e ast.Expr)
+			collect = func(e ast.Expr) {
+				e = ast.Unparen(e)
+				if be, ok := e.(*ast.BinaryExpr); ok && (be.Op == token.LAND || be.Op == token.LOR) {
+					collect(be.X)
+					collect(be.Y)
+					return
+				}
+				leaves = append(leaves, e)
+			}
+			collect(is.Cond)
+			if len(leaves) < 2 || len(leaves) != len(pairs) {
+				return true
+			}
+			seen := map[string]bool{}
+			for _, l := range leaves {
+				be, ok := l.(*ast.BinaryExpr)
+				if !ok || be.Op != token.NEQ {
+					return true
+				}
+				a, b := types.ExprString(be.X), types.ExprString(be.Y)
+				switch {
+				case pairs[a] == b:
+					seen[a] = true
+				case pairs[b] == a:
+					seen[b] = true
+				default:
+					return true
+				}
+			}
+			if len(seen) != len(pairs) {
+				return true
+			}
+			key := fname + "@refresh"
+			for _, k := range sortedKeys(pairs) {
+				key += ":" + k
+				break
+			}
+			if len(flattenBool(is.Cond, token.LOR)) == len(leaves) {
+				c.ok(key, is.Pos(), "refresh of %d values guarded by the disjunction of their inequalities", len(pairs))
+			} else {
+				c.bad(key, is.Pos(), "%s refreshes %d cached values only when `%s`: with a conjunction, a change of just one of them leaves it stale", fname, len(pairs), types.ExprString(is.Cond))
+			}
+			return true
+		})
+	})
+}
+
+func ruleRotateOrder(c *Ctx) {
+	c.P.funcDecls(func(pk *packages.Package, fd *ast.FuncDecl) {
+		if fd.Body == nil {
+			return
+		}
+		info := pk.TypesInfo
+		fname := pkgShort(pk.Types) + "." + funcName(fd)
+		isRef := func(t types.Type) bool {
+			switch t.Underlying().(type) {
+			case *types.Map, *types.Slice, *types.Pointer, *types.Chan:
+				return true
+			}
+			return false
+		}
+		fieldOf := func(e ast.Expr) (string, bool) {
+			sel, ok := ast.Unparen(e).(*ast.SelectorExpr)
+			if !ok {
+				return "", false
+			}
+			if s, ok := info.Selections[sel]; !ok || s.Kind() != types.FieldVal || !isRef(s.Type()) {
+				return "", false
+			}
+			return types.ExprString(sel), true
+		}
+		nrun := 0
+		ast.Inspect(fd.Body, func(n ast.Node) bool {
+			blk, ok := n.(*ast.BlockStmt)
+			if !ok {
+				return true
+			}
+			written := map[string]token.Pos{}
+			rot := 0
+			flush := func(pos token.Pos) {
+				if rot >= 2 {
+					nrun++
+					c.ok(fmt.Sprintf("%s@rotation%d", fname, nrun), pos, "%d field-to-field moves, each field read before it is overwritten", rot)
+				}
+				written = map[string]token.Pos{}
+				rot = 0
+			}
+			var runStart token.Pos
+			for _, st := range blk.List {
+				as, ok := st.(*ast.AssignStmt)
+				if !ok || as.Tok != token.ASSIGN || len(as.Lhs) != 1 || len(as.Rhs) != 1 {
+					flush(runStart)
+					continue
+				}
+				lf, okL := fieldOf(as.Lhs[0])
+				if !okL {
+					flush(runStart)
+					continue
+				}
+				if rot == 0 && len(written) == 0 {
+					runStart = as.Pos()
+				}
+				if rf, okR := fieldOf(as.Rhs[0]); okR {
+					if _, w := written[rf]; w {
+						nrun++
+						c.bad(fmt.Sprintf("%s@rotation%d", fname, nrun), as.Pos(), "%s: `%s = %s` reads %s after it was overwritten two statements earlier in the same rotation: %s and %s now share one buffer and the previous content of %s is lost", fname, lf, rf, rf, lf, rf, rf)
+						written = map[string]token.Pos{}
+						rot = 0
+						continue
+					}
+					rot++
+				}
+				written[lf] = as.Pos()
+			}
+			flush(runStart)
+			return true
+		})
+	})
+}
+
+func init() {
+	register(&Rule{Name: "pair.cover", Floor: 4,
+		Doc: "twin operands: when a function works on two same-typed values named <stem>1 and <stem>2 (locals, parameters or fields), every callee that is handed one twin is handed the other equally often (each check made on attestation_1 / header_1 is made on attestation_2 / header_2); a call repeated on the same twin leaves the other unchecked",
+		Run: rulePairCover})
+}
+
+func rulePairCover(c *Ctx) {
+	c.P.funcDecls(func(pk *packages.Package, fd *ast.FuncDecl) {
+		if fd.Body == nil || !strings.Contains(pk.PkgPath, "/eth2/") {
+			return
+		}
+		info := pk.TypesInfo
+		fname := pkgShort(pk.Types) + "." + funcName(fd)
+		// twin names: idents and selector leaves ending in 1 / 2 with the same stem and type
+		type twin struct{ one, two string }
+		names := map[string]types.Type{}
+		ast.Inspect(fd, func(n ast.Node) bool {
+			switch x := n.(type) {
+			case *ast.Ident:
+				if o := info.ObjectOf(x); o != nil {
+					if _, isVar := o.(*types.Var); isVar {
+						names[x.Name] = o.Type()
+					}
+				}
+			}
+			return true
+		})
+		var twins []twin
+		for _, n := range sortedKeys(names) {
+			if len(n) < 2 || !strings.HasSuffix(n, "1") {
+				continue
+			}
+			other := n[:len(n)-1] + "2"
+			if t2, ok := names[other]; ok && types.Identical(names[n], t2) {
+				twins = append(twins, twin{n, other})
+			}
+		}
+		if len(twins) == 0 {
+			return
+		}
+		mentions := func(e ast.Expr, name string) bool {
+			found := false
+			ast.Inspect(e, func(n ast.Node) bool {
+				if id, ok := n.(*ast.Ident); ok && id.Name == name {
+					found = true
+				}
+				return !found
+			})
+			return found
+		}
+		for _, tw := range twins {
+			cnt1, cnt2 := map[string]int{}, map[string]int{}
+			pos := map[string]token.Pos{}
+			ast.Inspect(fd.Body, func(n ast.Node) bool {
+				call, ok := n.(*ast.CallExpr)
+				if !ok {
+					return true
+				}
+				f := calleeFunc(info, call)
+				if f == nil {
+					return true
+				}
+				m1, m2 := false, false
+				for _, a := range call.Args {
+					if mentions(a, tw.one) {
+						m1 = true
+					}
+					if mentions(a, tw.two) {
+						m2 = true
+					}
+				}
+				if sel, ok := call.Fun.(*ast.SelectorExpr); ok {
+					if mentions(sel.X, tw.one) {
+						m1 = true
+					}
+					if mentions(sel.X, tw.two) {
+						m2 = true
+					}
+				}
+				if !m1 && !m2 {
+					return true
+				}
+				// only verdict-producing callees (result is exactly an error or a bool) owe both twins the same treatment;
+				// deriving a shared quantity (a domain, an epoch) from one twin is legitimate once the twins were compared
+				sig, _ := f.Type().(*types.Signature)
+				if sig == nil || sig.Results().Len() != 1 {
+					return true
+				}
+				rt := sig.Results().At(0).Type()
+				if b, isB := rt.Underlying().(*types.Basic); !(isB && b.Kind() == types.Bool) && rt.String() != "error" {
+					return true
+				}
+				name := qualName(f)
+				if _, ok := pos[name]; !ok {
+					pos[name] = call.Pos()
+				}
+				if m1 {
+					cnt1[name]++
+				}
+				if m2 {
+					cnt2[name]++
+				}
+				return true
+			})
+			for _, name := range sortedKeys(pos) {
+				key := fname + ":" + tw.one + "/" + tw.two + "->" + name
+				if cnt1[name] == cnt2[name] {
+					c.ok(key, pos[name], "applied to both twins (%d each)", cnt1[name])
+				} else {
+					c.bad(key, pos[name], "%s hands %s to %s %d time(s) and %s %d time(s): one of the twins is not given the same treatment (checked, verified, hashed) as the other", fname, tw.one, name, cnt1[name], tw.two, cnt2[name])
+				}
 			}
 		}
 	})
